@@ -34,12 +34,28 @@ func cliYAML(trace string) string {
 		fmt.Fprintf(&b, "  pfail%d:\n    command: [\"echo failPipe%d >> %s; exit 4\"]\n", i, i, trace)
 		fmt.Fprintf(&b, "  pslow%d:\n    command: [\"sleep 0.25\"]\n", i)
 	}
+	b.WriteString("  quietFail:\n    command: [\"exit 4\"]\n  quietOk:\n    command: [\"true\"]\n")
 	b.WriteString("pipelines:\n")
 	for i := 1; i <= 3; i++ {
-		fmt.Fprintf(&b, "  okPipe%d:\n    - task: pok%d\n", i, i)
+		switch i {
+		case 2:
+			// a pipeline that succeeds although a pipeline it includes fails: that stage allows failure
+			fmt.Fprintf(&b, "  okPipe%d:\n    - task: pok%d\n    - name: inc\n      pipeline: innerFail\n      allow_failure: true\n", i, i)
+		case 3:
+			fmt.Fprintf(&b, "  okPipe%d:\n    - name: inc\n      pipeline: innerOk\n      allow_failure: true\n    - task: pok%d\n      depends_on: [inc]\n", i, i)
+		default:
+			fmt.Fprintf(&b, "  okPipe%d:\n    - task: pok%d\n", i, i)
+		}
 		// a failing stage and an independent stage that succeeds later: the pipeline still fails
-		fmt.Fprintf(&b, "  failPipe%d:\n    - task: pfail%d\n    - task: pslow%d\n", i, i, i)
+		if i == 3 {
+			// (the failing stage is an included pipeline)
+			fmt.Fprintf(&b, "  failPipe%d:\n    - name: inc\n      pipeline: innerFailT\n    - task: pslow%d\n", i, i)
+			fmt.Fprintf(&b, "  innerFailT:\n    - task: pfail%d\n", i)
+		} else {
+			fmt.Fprintf(&b, "  failPipe%d:\n    - task: pfail%d\n    - task: pslow%d\n", i, i, i)
+		}
 	}
+	b.WriteString("  innerFail:\n    - task: quietFail\n  innerOk:\n    - task: quietOk\n")
 	return b.String()
 }
 
